@@ -23,6 +23,25 @@ Theorem C10_decoded_invocation_is_well_formed : forall n t, inv_from_payload n =
 Proof. exact inv_decoded_wf. Qed.
 Print Assumptions C10_decoded_invocation_is_well_formed.
 
+(* constructors: after the options are applied and a nonce generated when none was given, validate() *)
+Theorem C10_constructed_delegation_is_well_formed : forall iss aud sub cmd pol ng r12 meta nbf exp t,
+  dlg_new iss aud sub cmd pol ng r12 meta nbf exp = Ok t ->
+  defined (dk_iss t) = true /\ defined (dk_aud t) = true /\ (12 <= length (dk_nonce t))%nat /\
+  Command.parse (dk_cmd t) = Ok (dk_cmd t) /\ opt_in53 (dk_nbf t) /\ opt_in53 (dk_exp t) /\
+  ints_in53 (pol_to_ipld (dk_pol t)) = true /\
+  t = {| dk_iss := iss; dk_aud := aud; dk_sub := sub; dk_cmd := cmd; dk_pol := pol;
+         dk_nonce := default_nonce ng r12; dk_meta := meta; dk_nbf := nbf; dk_exp := exp |}.
+Proof. exact dlg_new_wf. Qed.
+Print Assumptions C10_constructed_delegation_is_well_formed.
+
+Theorem C10_constructed_invocation_is_well_formed : forall iss sub aud cmd args prf ng r12 meta exp iat cause t,
+  inv_new iss sub aud cmd args prf ng r12 meta exp iat cause = Ok t ->
+  defined (ik_iss t) = true /\ defined (ik_sub t) = true /\ (12 <= length (ik_nonce t))%nat /\
+  Command.parse (ik_cmd t) = Ok (ik_cmd t) /\ opt_in53 (ik_exp t) /\ opt_in53 (ik_iat t) /\
+  ik_aud t = norm_aud sub aud.
+Proof. exact inv_new_wf. Qed.
+Print Assumptions C10_constructed_invocation_is_well_formed.
+
 (* the signed part is exactly one header plus one payload under the requested tag *)
 Theorem C10_envelope_shape : forall n i, inspect n = Ok i ->
   exists m, n = List [Bytes (in_sig i); Map m] /\ in_sigpayload i = Map m /\
